@@ -864,10 +864,7 @@ func c09Judge(r *Run, id string, cse *c09Case, resp drvResp, resps map[string]dr
 	case "default":
 		// the builder without options holds the freshly constructed object plus the constructor constants
 		obj, _ := parseJSONNum(resp.Internal)
-		for _, as := range cse.b.Constructor.Assignments {
-			if as.Value.Constant == nil {
-				continue
-			}
+		for _, as := range lastConstants(cse.b.Constructor.Assignments) {
 			got, ok := lookupPath(obj, pathIdents(as.Path))
 			if !ok || jsonDiff(toJSONish(as.Value.Constant), got, jsonCmpOpts{}, "") != "" {
 				r.Violation(lang+"/constructor-constant-missing", fmt.Sprintf("%s builder %s: constructor constant %s=%v is not in the constructed object %s", lang, cse.b.Name, as.Path.String(), as.Value.Constant, resp.Internal), replay)
@@ -1078,8 +1075,8 @@ func c09Judge(r *Run, id string, cse *c09Case, resp drvResp, resps map[string]dr
 			targeted[strings.Join(c09PathKeys(e.Path), ".")] = true
 		}
 	}
-	for _, as := range cse.b.Constructor.Assignments {
-		if as.Value.Constant == nil || targeted[strings.Join(pathIdents(as.Path), ".")] {
+	for _, as := range lastConstants(cse.b.Constructor.Assignments) {
+		if targeted[strings.Join(pathIdents(as.Path), ".")] {
 			continue
 		}
 		got, ok := lookupPath(act, pathIdents(as.Path))
@@ -1147,6 +1144,7 @@ func c09Extras(caps amCaps) []corpusExtra {
 		{"append-union", mkAM(), v("", "  - array_to_append: {by_name: Panel.elements}\n  - disjunction_as_options: {by_name: Panel.elements}\n"), map[string]string{
 			"Panel.row": "elements+", "Panel.graph": "elements+", "Panel.Row": "elements+", "Panel.Graph": "elements+"}},
 		{"append-union-alias", mkAM(), v("", "  - array_to_append: {by_name: Panel.elements}\n  - disjunction_as_options: {by_name: Panel.elements}\n  - duplicate: {by_name: Panel.row, as: addRow}\n  - array_to_append: {by_name: Panel.items}\n  - duplicate: {by_name: Panel.items, as: addItem}\n"), nil},
+		{"multi-builder", mkAM(), v("  - duplicate: {by_object: Item, as: Thing}\n  - initialize: {by_name: Item, set: [{property: on, value: true}, {property: weight, value: 1.5}]}\n  - initialize: {by_name: Thing, set: [{property: on, value: true}, {property: weight, value: 2.5}]}\n", "  - omit: {by_name: Item.weight}\n  - omit: {by_name: Thing.weight}\n  - omit: {by_name: Item.on}\n  - omit: {by_name: Thing.on}\n"), nil},
 		{"index-args", mkAM(), v("", "  - map_to_index: {by_name: Panel.byName}\n  - map_to_index: {by_name: Panel.limits}\n  - struct_fields_as_arguments: {by_name: Panel.leaf}\n  - struct_fields_as_arguments: {by_name: Panel.span}\n"), map[string]string{
 			"Panel.byName": "byName.", "Panel.limits": "limits.", "Panel.leaf": "leaf.name,leaf.weight,leaf.on", "Panel.span": "span.from,span.quick,span.to,span.marks"}},
 		{"ctor", mkAM(), v("  - promote_options_to_constructor: {by_object: Panel, options: [title, main, note]}\n  - initialize: {by_object: Item, set: [{property: on, value: true}]}\n", "  - struct_fields_as_options: {by_name: Panel.leaf}\n"), map[string]string{
@@ -1219,4 +1217,22 @@ func c09Mismatch(r *Run, cs *corpusSchema, lang string, b ast.Builder, option, w
 		return
 	}
 	r.Violation("ir/argument-does-not-fit-its-target/"+cs.Extra+"/"+afterColon(why), fmt.Sprintf("%s: option %s.%s takes an argument that the value stored at its target path can never be (%s)", lang, b.Name, option, why), map[string]any{"format": cs.Format, "veneers": cs.Veneers, "language": lang, "builder": b.Name, "option": option, "schema": string(cs.SchemaText)})
+}
+
+// lastConstants: the constant assignments of a constructor, keeping for every path only the last one (a later
+// `initialize` rule legitimately overrides an earlier one).
+func lastConstants(as []ast.Assignment) []ast.Assignment {
+	last := map[string]int{}
+	for i, a := range as {
+		if a.Value.Constant != nil {
+			last[strings.Join(pathIdents(a.Path), ".")] = i
+		}
+	}
+	var out []ast.Assignment
+	for i, a := range as {
+		if a.Value.Constant != nil && last[strings.Join(pathIdents(a.Path), ".")] == i {
+			out = append(out, a)
+		}
+	}
+	return out
 }
